@@ -22,6 +22,8 @@ pub enum Pos {
     Gap,
     /// Some(2^62 - 4)
     Huge,
+    /// Some(2^32 - 2): crosses the 32-bit boundary with the next few appends
+    Near32,
 }
 
 #[derive(Clone, Copy, Debug, PartialEq, Eq, Hash, serde::Serialize, serde::Deserialize)]
@@ -128,6 +130,7 @@ impl Resolver {
                 let pos = match (pos, next) {
                     (Pos::Auto, _) => None,
                     (Pos::Huge, _) => Some((1u64 << 62) - 4),
+                    (Pos::Near32, _) => Some((1u64 << 32) - 2),
                     (_, None) => Some(0),
                     (Pos::Retry, Some(n)) => Some(n.saturating_sub(1)),
                     (Pos::Past, Some(n)) => Some(n.saturating_sub(2)),
@@ -202,10 +205,17 @@ pub fn set_long_names(on: bool) {
 pub fn default_names() -> Vec<String> {
     if LONG_NAMES.with(|l| l.get()) {
         let long = if TINY { "N".repeat(BLOCK + 6) } else { "N".repeat(65535) };
-        return vec![long, "b".into(), "zz".into(), "f".into()];
+        let mut v: Vec<String> = vec![long, "b".into(), "zz".into(), "f".into()];
+        v.extend((0..NUM_EXTRA_QUEUES).map(|i| format!("q{:02}", i)));
+        return v;
     }
-    vec!["a".into(), "b".into(), "zz".into(), "f".into()]
+    let mut v: Vec<String> = vec!["a".into(), "b".into(), "zz".into(), "f".into()];
+    v.extend((0..NUM_EXTRA_QUEUES).map(|i| format!("q{:02}", i)));
+    v
 }
+
+/// Extra queue names (indices 4..4+NUM_EXTRA_QUEUES) used by the many-queues seed.
+pub const NUM_EXTRA_QUEUES: usize = 30;
 
 fn per_queue_full(q: u8) -> Vec<Op> {
     vec![
@@ -365,7 +375,11 @@ pub fn a_sizes() -> Vec<Op> {
     let mut v: Vec<Op> = special_sizes().into_iter().map(|n| Op::app(QA, Pos::Auto, Sz::N(n as u32))).collect();
     v.push(Op::app(QB, Pos::Auto, Sz::S3));
     v.push(Op::Append { q: QA, pos: Pos::Auto, sizes: vec![Sz::S0, Sz::N((BLOCK - 7 - 24 - 12) as u32)] });
+    // a batch of many small records (an entry of many blocks / several files)
+    v.push(Op::Append { q: QA, pos: Pos::Auto, sizes: vec![Sz::S1; if TINY { 60 } else { 400 }] });
+    v.push(Op::Append { q: QB, pos: Pos::Near32, sizes: vec![Sz::S3, Sz::S1, Sz::S5] });
     v.push(Op::Trunc { q: QA, at: Tr::First });
+    v.push(Op::Trunc { q: QA, at: Tr::Mid });
     v.push(Op::Trunc { q: QA, at: Tr::Last });
     v.push(Op::Reopen);
     v
